@@ -52,7 +52,7 @@ HASHSEEDS = ["0", "1", "2", "12345"]
 
 
 def budget(tier):
-    return int(os.environ.get("VERIF_BUDGET", 0)) or {"quick": 80, "thorough": 2400}[tier]
+    return int(os.environ.get("VERIF_BUDGET", 0)) or {"quick": 64, "thorough": 2400}[tier]
 
 
 # ---------------------------------------------------------------- generation (pure, no pharmpy import)
@@ -61,8 +61,31 @@ COMP_NAMES = ["CENTRAL", "DEPOT", "PERI1", "PERI2", "TRANS1"]
 PHENO_TRANSFORMS = [
     "foabs", "zoabs", "seqabs", "periph", "transit1", "transit2", "lag", "joint", "properr", "comberr", "fix", "init",
     "zoelim", "mmelim", "mixelim", "est_imp", "evalstep", "deriv", "sim", "rename", "iov", "metab", "bio", "effect",
-    "lower", "solver", "subs_amt", "covar", "iiv_remove", "toolopt",
+    "lower", "solver", "subs_amt", "covar", "iiv_remove", "toolopt", "ie", "ie", "obstrans",
 ]
+
+
+import math
+
+AWK = [1e-300, 1e300, 5e-324, 2.2250738585072014e-308, 0.30000000000000004, 1 / 3, 1.23456789012345e-06, 4.86483443076692e-02,
+       123456789.12345679, 1e15 + 0.3, 0.1, 3.141592653589793e-08, 9007199254740993.0, 1.7976931348623157e308, 2.5e-05,
+       1e22, 1e23, 1.0000000000000002, 7.72119578443213e-03, 2.55103120329811e-04]
+
+
+def awk(rng, positive=False, zero=True):
+    """A numerically awkward double: extreme magnitudes, subnormals, 15-17 significant digits, signed zeros."""
+    r = rng.random()
+    if r < 0.45:
+        v = rng.choice(AWK)
+    elif r < 0.75:
+        v = rng.uniform(1, 10) * 10.0 ** rng.randint(-30, 30)
+    elif r < 0.9 or not zero:
+        v = float(rng.randint(1, 10 ** 15)) / 10.0 ** rng.randint(0, 21)
+    else:
+        v = 0.0
+    if not positive and rng.random() < 0.4:
+        v = -v
+    return v
 
 
 def gen_expr(rng, avail, depth=0):
@@ -158,12 +181,18 @@ def gen_model_spec(rng):
     joint = n_eta >= 2 and rng.random() < 0.5
     params = []
     for s in syms:
-        init = rng.choice([0.1, 0.5, 1.0, 2.5, 0.00469307, 12.0])
-        lo = rng.choice([None, 0.0, 0.0, 0.001])
-        up = rng.choice([None, None, 100.0, 1e6])
-        params.append([f"POP_{s}", init, lo, up, rng.random() < 0.15])
+        if rng.random() < 0.5:
+            init = rng.choice([0.1, 0.5, 1.0, 2.5, 0.00469307, 12.0])
+            lo = rng.choice([None, 0.0, 0.0, 0.001])
+            up = rng.choice([None, None, 100.0, 1e6])
+        else:
+            init = awk(rng)
+            lo = rng.choice([None, -1e300, math.nextafter(init, -math.inf), init, -0.0 if init >= 0 else None])
+            up = rng.choice([None, 1e300, math.nextafter(init, math.inf), 1.7976931348623157e308])
+        params.append([f"POP_{s}", init, lo, up, rng.random() < 0.15] + (["raw-int"] if rng.random() < 0.05 else []))
     for s in eta_syms:
-        params.append([f"IIV_{s}", rng.choice([0.1, 0.09, 0.3]), 0.0, None, False])
+        params.append([f"IIV_{s}", rng.choice([0.1, 0.09, 0.3]) if joint or rng.random() < 0.5 else awk(rng, positive=True, zero=False),
+                       0.0, None, False])
     rvs = []
     if joint:
         mat = [[f"IIV_{a}" if a == b else "IIV_" + "_".join(sorted([a, b])) for b in eta_syms] for a in eta_syms]
@@ -243,7 +272,10 @@ def gen_model_spec(rng):
             kw["solver_rtol"] = rng.choice([None, 6])
             kw["solver_atol"] = rng.choice([None, 9])
         if rng.random() < 0.3:
-            kw["tool_options"] = rng.choice([{"NITER": 5}, {"SEED": 23, "PRINT": "1"}, {"FILE": "a b.ext"}])
+            kw["tool_options"] = rng.choice([{"NITER": 5}, {"SEED": 23, "PRINT": "1"}, {"FILE": "a b.ext"},
+                                             {"SIGL": awk(rng), "TOL": [awk(rng), 1]}])
+        if rng.random() < 0.15:
+            kw["solver_atol"] = awk(rng, positive=True, zero=False)
         if rng.random() < 0.12:
             kw["derivatives"] = rng.choice([[["ETA_CL"]], [["ETA_CL"], ["EPS_1", "ETA_CL"]]])
         if rng.random() < 0.2:
@@ -258,16 +290,29 @@ def gen_model_spec(rng):
                 row.append(1 + r // 3)
             elif cn == "APGR":
                 row.append(rng.choice([1, 2, 3, 5, 7]))
+            elif rng.random() < 0.15:
+                row.append(awk(rng))
             else:
                 row.append(rng.choice([0.0, 1.0, 2.5, 17.3, 70.0, 0.25, 100.0]))
         data.append(row)
+    ie = None
+    if rng.random() < 0.5:
+        ids = sorted({r[0] for r in data})
+        ie = {"index": ids, "cols": {f"ETA_{s}": [awk(rng) if rng.random() < 0.85 else rng.choice([0.1, -0.25, 0.0, -0.0])
+                                                   for _ in ids] for s in eta_syms}}
+    if "APGR" in colnames and rng.random() < 0.3:
+        for c in cols:
+            if c[0] == "APGR":
+                c[5] = [1, 2.5, 0.30000000000000004, 5, 7]
     post = []
     if rng.random() < 0.25:
         post.append(["subs", rng.choice([{"AMT": "DOSE"}, {"ALAG": "ALAG2"}, {"BIO": "FBIO"}, {"CL": "CLX"}])])
     return {"kind": "gen", "name": rng.choice(["run1", "m", "base model"]), "description": rng.choice(["", "a model"]),
             "comps": comps, "order": order, "flows": uniq, "tweaks": tweaks, "params": params, "rvs": rvs, "cols": cols,
-            "stmts": stmts, "steps": steps, "data": data, "dv": {"Y": 1}, "post": post,
-            "sep": rng.choice([",", ",", r"\s+"])}
+            "stmts": stmts, "steps": steps, "data": data, "dv": rng.choice([{"Y": 1}, {"Y": 1}, {"Y": 1, "F": 2}]), "post": post,
+            "sep": rng.choice([",", ",", r"\s+"]), "ie": ie,
+            "value_type": rng.choice(["PREDICTION", "PREDICTION", "LIKELIHOOD", "-2LL"]),
+            "obstrans": rng.choice([None, None, {"Y": "log(Y)"}, {"Y": "Y**2 + 1"}])}
 
 
 def gen_pheno_spec(rng):
@@ -483,6 +528,10 @@ def apply_transform(m, t):
         return pm.add_covariate_effect(m, "CL", "APGR", "cat")
     if t == "iiv_remove":
         return pm.remove_iiv(m, [m.random_variables.iiv.names[0]])
+    if t == "ie":
+        return m.replace(initial_individual_estimates=make_ie(PHENO_IE))
+    if t == "obstrans":
+        return m.replace(observation_transformation={Expr.symbol("Y"): Expr("log(Y)")})
     if t == "toolopt":
         s = m.execution_steps[0].replace(tool_options={"NITER": 7, "PRINT": "2"})
         return m.replace(execution_steps=PM.ExecutionSteps.create([s]) + m.execution_steps[1:])
@@ -528,6 +577,16 @@ def run_builder(ops, comps):
     return cb
 
 
+def make_ie(ie):
+    if ie is None:
+        return None
+    return pd.DataFrame({c: [float(v) for v in vals] for c, vals in ie["cols"].items()}, index=pd.Index(ie["index"], name="ID"))
+
+
+PHENO_IE = {"index": [1, 2, 3], "cols": {"ETA_CL": [4.86483443076692e-02, -1.23456789012345e-06, 5e-324],
+                                          "ETA_VC": [-0.0, 1e300, 0.30000000000000004]}}
+
+
 def build_model(spec):
     """Real pharmpy model of a spec; raises on a spec pharmpy refuses."""
     if spec["kind"] == "pheno":
@@ -543,7 +602,11 @@ def build_model(spec):
     comps = make_comps(spec)
     cs = PM.CompartmentalSystem(run_builder(build_graph_ops(spec), comps))
     sts = [PM.Assignment.create(s[1], s[2]) if s[0] == "=" else cs for s in spec["stmts"]]
-    params = PM.Parameters.create([PM.Parameter.create(p[0], p[1], lower=p[2], upper=p[3], fix=p[4]) for p in spec["params"]])
+    def mkpar(p):
+        if len(p) > 5 and p[5] == "raw-int":      # ints where floats are usual (as add_covariate_effect does)
+            return PM.Parameter(p[0], 1, -1, 5, p[4])
+        return PM.Parameter.create(p[0], p[1], lower=p[2], upper=p[3], fix=p[4])
+    params = PM.Parameters.create([mkpar(p) for p in spec["params"]])
     dists = []
     for r in spec["rvs"]:
         if r[0] == "normal":
@@ -568,7 +631,11 @@ def build_model(spec):
     m = PM.Model.create(name=spec["name"], description=spec["description"], parameters=params, random_variables=rvs,
                         statements=PM.Statements(sts),
                         dependent_variables=spec["dv"] if spec.get("dv_str") else {Expr.symbol(k): v for k, v in spec["dv"].items()},
-                        execution_steps=PM.ExecutionSteps.create(steps), datainfo=di, dataset=df)
+                        execution_steps=PM.ExecutionSteps.create(steps), datainfo=di, dataset=df,
+                        value_type=spec.get("value_type", "PREDICTION"),
+                        observation_transformation=None if not spec.get("obstrans") else
+                        {Expr.symbol(k): Expr(v) for k, v in spec["obstrans"].items()},
+                        initial_individual_estimates=make_ie(spec.get("ie")))
     for p in spec["post"]:
         if p[0] == "subs":
             m = m.replace(statements=m.statements.subs(p[1]))
@@ -691,13 +758,26 @@ def w_di(di):
             w_json(di._separator), w_json(di._missing_data_token)]
 
 
+def w_ie(ie):
+    """The frame as the object holds it: labels as json.dumps spells dict keys, cells by exact repr (no pandas export)."""
+    if ie is None:
+        return "none"
+    return ["ie", [_jkey(_py(k)) for k in ie.index],
+            [[str(c), [w_json(_py(ie[c].iloc[i])) for i in range(len(ie.index))]] for c in ie.columns]]
+
+
+def _py(x):
+    """numpy scalar -> Python scalar of the same value (what DataFrame.to_dict() boxes to)"""
+    return x.item() if hasattr(x, "item") else x
+
+
 def w_model(m):
     ie = m._initial_individual_estimates
     return ["model", m.name, m.description, [w_param(p) for p in m._parameters], w_rvs(m._random_variables),
             [w_stmt(s) for s in m._statements], [w_step(s) for s in m._execution_steps], w_di(m._datainfo),
             w_json(m._value_type), w_json({str(k): v for k, v in m._dependent_variables.items()}),
             [[ser(k), ser(v)] for k, v in m._observation_transformation.items()],
-            w_json(None if ie is None else ie.to_dict())]
+            w_ie(ie)]
 
 
 def dumps(d):
@@ -719,6 +799,62 @@ def nonstr_keys(x):
     if isinstance(x, (list, tuple)):
         return any(nonstr_keys(v) for v in x)
     return False
+
+
+def fhex(x):
+    return float(x).hex()
+
+
+def float_leaves(x):
+    """All float leaves of a Python value tree (dict / Mapping / list / tuple), bools and ints excluded."""
+    if isinstance(x, float):
+        yield float(x)
+    elif isinstance(x, dict) or (hasattr(x, "items") and hasattr(x, "keys")):
+        for v in x.values():
+            yield from float_leaves(v)
+    elif isinstance(x, (list, tuple)):
+        for v in x:
+            yield from float_leaves(v)
+
+
+def object_leaves(m):
+    """The float leaves the model object holds, per section of to_dict (read from the private fields)."""
+    ie = m._initial_individual_estimates
+    return {
+        "parameters": sorted(fhex(x) for p in m._parameters for x in float_leaves(list(p.__dict__.values()))),
+        "execution_steps": sorted(fhex(x) for st in m._execution_steps for x in float_leaves(list(st.__dict__.values()))),
+        "datainfo": sorted(fhex(x) for c in m._datainfo for x in float_leaves(list(c.__dict__.values()))),
+        "initial_individual_estimates": [] if ie is None else sorted(
+            fhex(v) for c in ie.columns for v in (_py(x) for x in ie[c]) if isinstance(v, float)),
+    }
+
+
+def dict_leaves(d):
+    return {k: sorted(fhex(x) for x in float_leaves(d.get(k))) for k in
+            ("parameters", "execution_steps", "datainfo", "initial_individual_estimates")}
+
+
+def leaf_diff(a, b):
+    out = []
+    for k in a:
+        if a[k] != b[k]:
+            only_a = [float.fromhex(h) for h in a[k] if h not in b[k]][:3]
+            only_b = [float.fromhex(h) for h in b[k] if h not in a[k]][:3]
+            out.append(f"{k}: {only_a!r} became {only_b!r}" if only_a or only_b else f"{k}: multiplicities differ")
+    return "; ".join(out)
+
+
+def rekey_ie(jd, m):
+    """JSON turned the index labels of initial_individual_estimates into strings; put the original labels back."""
+    ie = jd.get("initial_individual_estimates") if isinstance(jd, dict) else None
+    orig = m._initial_individual_estimates
+    if not isinstance(ie, dict) or orig is None:
+        return jd
+    back = {_jkey(_py(k)): _py(k) for k in orig.index}
+    jd = dict(jd)
+    jd["initial_individual_estimates"] = {c: ({back.get(k, k): v for k, v in col.items()} if isinstance(col, dict) else col)
+                                          for c, col in ie.items()}
+    return jd
 
 
 def retuple_model_dict(jd):
@@ -1064,7 +1200,12 @@ def run_case(case, drv):
         except Exception as e:
             mon.append({"cls": "json-not-serialisable", "what": f"json.dumps({name}.to_dict()) raised {type(e).__name__}: {e}"})
             continue
-        if nonstr_keys(d) or norm_tl(json.loads(js)) != norm_tl(d):
+        d_wo_ie = {k: v for k, v in d.items() if k != "initial_individual_estimates"} if name == "model" else d
+        if name == "model" and nonstr_keys(d.get("initial_individual_estimates")):
+            mon.append({"cls": "json-int-keys-individual-estimates",
+                        "what": "model.to_dict()['initial_individual_estimates'] has the (integer) index labels as dict keys; "
+                                "json.dumps turns them into strings: json.loads(json.dumps(d)) != d"})
+        if nonstr_keys(d_wo_ie) or norm_tl(json.loads(dumps(d_wo_ie))) != norm_tl(d_wo_ie):
             mon.append({"cls": "json-not-fixpoint", "what": f"json.loads(json.dumps(d)) != d for {name}.to_dict()"})
         # ---- K: toDict text
         if drv is not None:
@@ -1122,6 +1263,16 @@ def run_case(case, drv):
                 fixed = cls.from_dict(retuple(name, jd)) == back
             except Exception:
                 fixed = False
+            if not fixed and name == "model" and m._initial_individual_estimates is not None:
+                try:
+                    fixed2 = cls.from_dict(rekey_ie(retuple(name, jd), m)) == back
+                except Exception:
+                    fixed2 = False
+                if fixed2:
+                    mon.append({"cls": "json-int-keys-individual-estimates",
+                                "what": "Model.from_dict(json.loads(json.dumps(m.to_dict()))) != m: the index labels of "
+                                        "initial_individual_estimates come back as strings ('1' instead of 1)"})
+                    fixed = True
             if fixed:
                 mon.append({"cls": "json-reload-list-for-tuple",
                             "what": f"{cls.__name__}.from_dict(json.loads(json.dumps(x.to_dict()))) != x only because JSON arrays "
@@ -1135,11 +1286,43 @@ def run_case(case, drv):
         try:
             g2 = parse_generic(m.code)
             if not (g2 == backs["model"]):
-                ok = PM.Model.from_dict(retuple_model_dict(json.loads(dumps(d_model)))) == backs["model"]
+                ok = PM.Model.from_dict(rekey_ie(retuple_model_dict(json.loads(dumps(d_model))), m)) == backs["model"]
                 mon.append({"cls": "json-reload-list-for-tuple" if ok else "json-reload-differs",
                             "what": "parse_model(model.code) != model" + (" (list-for-tuple fields only)" if ok else "")})
         except Exception as e:
             mon.append({"cls": "json-reload-raises", "what": f"parse_model(model.code) raised {type(e).__name__}: {e}"})
+
+    # ---- numeric leaves: to_dict, json text and from_dict must preserve every float bit for bit
+    obj_leaves = object_leaves(m)
+    n_leaves = sum(len(v) for v in obj_leaves.values())
+    tags.append("float-leaves=" + ("0" if n_leaves == 0 else "1-9" if n_leaves < 10 else "10-29" if n_leaves < 30 else "30+"))
+    if m._initial_individual_estimates is not None:
+        tags.append("has-individual-estimates")
+    diff = leaf_diff(obj_leaves, dict_leaves(d_model))
+    if diff:
+        mon.append({"cls": "float-leaf-changed-in-to-dict", "what": f"to_dict() does not hold the model's floats exactly: {diff}"})
+    else:
+        try:
+            diff = leaf_diff(obj_leaves, dict_leaves(json.loads(dumps(d_model))))
+        except Exception:
+            diff = ""
+        if diff:
+            mon.append({"cls": "float-leaf-changed-in-json", "what": f"json.loads(json.dumps(to_dict())) changes floats: {diff}"})
+    if "model" in backs:
+        diff = leaf_diff(obj_leaves, object_leaves(backs["model"]))
+        if diff:
+            mon.append({"cls": "roundtrip-float-leaf-changed", "what": f"from_dict(to_dict(m)) holds different floats: {diff}"})
+    if drv is not None:
+        seen = sorted({h for v in obj_leaves.values() for h in v})[:60]
+        for h in seen:
+            x = float.fromhex(h)
+            a = drv.ask(["leaf", float.__repr__(x)])
+            text = json.dumps(x)
+            if a != ["ok", text]:
+                k.append(f"numeric leaf encoder: model {a} code {text!r}")
+            if x == x and float(json.loads(text)).hex() != h:
+                k.append(f"numeric leaf encoder is not injective: {x!r} -> {text} -> {json.loads(text)!r}")
+        tags.append("q:leaf")
 
     # ---- Mon (d): the codec law on every expression of the statements
     try:
@@ -1282,6 +1465,52 @@ def run_case(case, drv):
         h = safe_hash(m3, mon, "from_dict(to_dict(model))")
         if h is not None and h != h0:
             mon.append({"cls": "hash-changes-after-roundtrip", "what": "ModelHash(from_dict(to_dict(m))) != ModelHash(m) although the models are =="})
+    # ---- one unit in the last place of one float leaf is a different model: the key must change
+    ulps = []
+    ps = list(m.parameters)
+    cand = [i for i, p in enumerate(ps) if isinstance(p._init, float) and math.isfinite(p._init)]
+    if cand:
+        i = rng.choice(cand)
+        p = ps[i]
+        for nv in (math.nextafter(p._init, math.inf), math.nextafter(p._init, -math.inf)):
+            if p._lower <= nv <= p._upper:
+                ps2 = ps[:i] + [PM.Parameter(p._name, nv, p._lower, p._upper, p._fix)] + ps[i + 1:]
+                ulps.append((f"parameter-init {p._name} {p._init!r} -> {nv!r}", lambda ps2=ps2: m.replace(parameters=PM.Parameters(tuple(ps2)))))
+                break
+    ie0 = m._initial_individual_estimates
+    if ie0 is not None and len(ie0.index) and len(ie0.columns):
+        r_, c_ = rng.randrange(len(ie0.index)), rng.randrange(len(ie0.columns))
+        v = _py(ie0.iloc[r_, c_])
+        if isinstance(v, float) and math.isfinite(v):
+            nv = math.nextafter(v, math.inf)
+            ie2 = ie0.copy()
+            ie2.iloc[r_, c_] = nv
+            ulps.append((f"individual-estimate [{r_},{c_}] {v!r} -> {nv!r}", lambda ie2=ie2: m.replace(initial_individual_estimates=ie2)))
+    fcols = [c for c in df.columns if str(df[c].dtype) == "float64"]
+    if fcols and len(df):
+        c_, r_ = rng.choice(fcols), rng.randrange(len(df))
+        v = float(df[c_].iloc[r_])
+        if math.isfinite(v):
+            nv = math.nextafter(v, math.inf)
+            df2 = fresh_frame(df)
+            df2.iloc[r_, df2.columns.get_loc(c_)] = nv
+            ulps.append((f"data-cell [{r_},{c_}] {v!r} -> {nv!r}", lambda df2=df2: m.replace(dataset=df2)))
+    for what, mk in ulps:
+        kind = what.split(" ")[0]
+        try:
+            m2 = mk()
+            differs = not (m2 == m) or not m2.dataset.equals(m.dataset)
+        except Exception as e:
+            tags.append(f"ulp-refused:{kind}:{type(e).__name__}")
+            continue
+        if not differs:
+            tags.append("ulp-equal:" + kind)
+            continue
+        tags.append("ulp:" + kind)
+        h = safe_hash(m2, mon, "model with one float changed by one ulp")
+        if h is not None and h == h0:
+            mon.append({"cls": "hash-collision-ulp-" + kind, "what": f"ModelHash unchanged although the models differ: {what}"})
+
     # ---- the key must be a function of the dataset's content, not of the DataFrame object's history:
     #      `df` has just been hashed; derive new frames from this very object (pandas propagates df.attrs and may share
     #      buffers), hash the derived model in this process, compare with an equal-content model built from scratch
@@ -1316,7 +1545,7 @@ def run_case(case, drv):
     if spec["kind"] == "gen":
         # single-field perturbations must change the hash
         perts = perturbations(rng, spec)
-        for field, s2 in rng.sample(perts, min(8, len(perts))):
+        for field, s2 in rng.sample(perts, min(6, len(perts))):
             try:
                 m2, _ = build_model(s2)
             except Exception:
